@@ -158,6 +158,43 @@ CLAIMS = {
              "are validated: converged implies the stated feasibility/objective/gap clauses and agreement between restatements.",
         note="All tolerance comparisons on real data are the driver's (program as stated by the caller); TLC's exact optimum is compared "
              "at 2e-3, the tight bound uses the driver's own __int128 vertex enumeration."),
+    "C09": dict(
+        category="exploration", design_ref="DESIGN.md §3 C09",
+        technique="TLC model checking of MapReduce.tla (every worker/chunk assignment of the accumulate-then-reduce protocol) + TLC re-computation of linear/gboost objectives on exact lattice datasets (Objective.tla) + TLC validation of recorded vgrad calls (ObjectiveTrace.tla)",
+        text="TLC explores every assignment of sample chunks to per-thread accumulators (<= 4 workers, <= 6 samples, all batch sizes) and shows "
+             "the reduced (value, gradient) is independent of the assignment and counts each sample exactly once; on integer lattice datasets "
+             "TLC re-computes the MSE objective, its gradient, the L1/L2 penalties and the gboost scale/bias objectives exactly and compares "
+             "with the recorded vgrad results; a spy loss records which (target, output) pairs reach loss_t so TLC checks every sample is "
+             "evaluated exactly once whatever the batch size / thread count; repeated and re-threaded calls must return identical values up to "
+             "summation order.",
+        note="Exactness only on the integer lattice; non-lattice data are compared between thread counts/batch sizes with a summation-order "
+             "tolerance computed by the driver."),
+    "C10": dict(
+        category="exploration", design_ref="DESIGN.md §3 C10",
+        technique="TLC brute-force re-computation of optimal weak-learner fits on small integer datasets (WeakLearner.tla) + TLC validation of recorded fit/predict/scale/merge calls (WeakLearnerTrace.tla)",
+        text="For affine, stump, table (dense, k-best, k-split) and depth-bounded tree learners on integer datasets with missing values TLC "
+             "enumerates every feature / threshold / bin subset, computes the exact optimal residual score (rational arithmetic over a common "
+             "denominator) and checks the recorded fit reaches it, predictions add exactly table/stump outputs on the selected samples and "
+             "nothing on missing ones, and that scale() / merged trees obey the algebra stated by the property.",
+        note="Integer (lattice) gradients only; score ties are open (any optimal feature is accepted); tree depth <= 2, <= 4 features, <= 12 samples."),
+    "C18": dict(
+        category="model_checking", design_ref="DESIGN.md §3 C18",
+        technique="TLC model checking of SharedConst.tla (concurrent const use of shared vs cloned objects) + TLC validation of solo-vs-concurrent call records of every registered object family (SharedTrace.tla)",
+        text="TLC explores every interleaving of threads calling const members on a shared object whose members touch mutable caches, "
+             "showing that only per-call / cloned scratch keeps results equal to the solo results (the _noclone configuration is the negative "
+             "control); the driver calls const members of every registered loss, function, weak learner, splitter, tuner and fitted model "
+             "from 1..16 threads with seeded yields and TLC checks each concurrent result equals the solo result bit for bit, and that "
+             "gboost/linear fits are invariant under the pool-size cap.",
+        note="Data races that do not change a result are visible only to the auxiliary TSan run (thorough); the yield points are the "
+             "pool hooks, other code is interleaved by the OS scheduler."),
+    "C14": dict(
+        category="other", design_ref="DESIGN.md §3 C14",
+        technique="TLC re-computation of column statistics and the four scaling modes on exact-lattice data + TLC validation of recorded scale/upscale/affine records (Scaling.tla, ScalingTrace.tla)",
+        text="Scoped to the exact-lattice reading: on columns whose statistics are exactly representable TLC re-computes count/min/max/mean/"
+             "stdev and every scaled entry for the four modes, identity scaling of degenerate columns, missing -> 0, categorical columns "
+             "untouched, inversion and the affine up-scaling identity of linear models.",
+        note="Partial: 'up to floating-point rounding' clauses on non-lattice data, magnitudes 1e-6..1e6 and near-constant columns are not "
+             "decided (rounding is outside what TLC can decide)."),
 }
 
 NOT_YET = "machinery not finished (see DESIGN.md §7: a property is claimed only once its quick check passes and its demo mutations are caught)"
